@@ -43,3 +43,5 @@ Definition m_rtsp_feed (fx : fixes) (add : bool) := rtsp_feed fx (glue_rf fx) cf
 Definition m_grun (fx : fixes) (c : grp_cfg) (l : list gev) : N * option N :=
   grun fx (glue_cf fx) (glue_rf fx) glue_sf cfg_fixed c grp_init l 0.
 Definition m_gstep (fx : fixes) (c : grp_cfg) := gstep fx (glue_cf fx) (glue_rf fx) glue_sf cfg_fixed c.
+Definition m_gfinal (fx : fixes) (c : grp_cfg) (l : list gev) : option grp_st :=
+  gfinal fx (glue_cf fx) (glue_rf fx) glue_sf cfg_fixed c grp_init l.
